@@ -330,6 +330,15 @@ func (e *SpecEnv) call(n *SCall) Val {
 		c.old = e.entry.st
 		return c.call(&SCall{Fun: strings.TrimSuffix(n.Fun, "SinceEntry"), Args: n.Args})
 	}
+	if strings.HasSuffix(n.Fun, "SinceHead") {
+		// old() is the head of the innermost loop iteration
+		if e.head == nil {
+			specFail("%s outside a loop body", n.Fun)
+		}
+		c := *e
+		c.old = e.head.st
+		return c.call(&SCall{Fun: strings.TrimSuffix(n.Fun, "SinceHead"), Args: n.Args})
+	}
 	switch n.Fun {
 	case "len":
 		v := e.Eval(n.Args[0])
